@@ -682,6 +682,7 @@ def constructed_objects(ctx, oracle):
     out.append(('TemplateAttribute', lambda: objects.TemplateAttribute(attributes=[]), V1, 'TemplateAttribute(attributes=[])'))
     out.append(('CommonTemplateAttribute', lambda: objects.CommonTemplateAttribute(attributes=mk_attrs(2)), V1, 'CommonTemplateAttribute'))
     out.append(('Template', lambda: secrets.Template(attributes=mk_attrs(3)), V1, 'Template(attributes)'))
+    out.append(('Template', lambda: secrets.Template(attributes=[]), [10], 'secrets.Template(attributes=[])'))
 
     # --- key material, key blocks, managed objects
     def key_block(material=b'\x01' * 16, fmt=enums.KeyFormatType.RAW, alg=enums.CryptographicAlgorithm.AES, length=128, wrap=None, comp=None):
